@@ -115,26 +115,20 @@ func runExtra(cfg gatedCfg) (res gatedResult) {
 	cq := func() (int, int) { return safeCounterQueue(pool) }
 
 	// submitOne: a single Submit on a quiescent, running pool; the task must have run at the next quiescence
-	priorShutdown := false // a Shutdown has been called on this pool before (left-over shutdown signals are possible)
-	// cancelledOK: with cancel-on-shutdown the statement allows "run or cancelled exactly once"; a worker of a
-	// restarted pool that consumes a shutdown signal left over from the previous cycle cancels instead of running
-	// (happens on the unchanged tree too). Accepted only if the task is finished: counter and queue are zero.
-	cancelledOK := func(t *gtask) bool {
-		if !(cfg.Cancel && priorShutdown && t.runs.Load() == 0) {
-			return false
-		}
-		if cnt, q := cq(); cnt != 0 || q != 0 {
-			return false
-		}
-		res.CancelledWhileRunning++
-		return true
-	}
+	// (cancel-on-shutdown only licenses cancelling what is pending when Shutdown is called: a task accepted by a
+	// running - also a restarted - pool must have run at the next quiescence)
 	submitOne := func(what string) bool {
 		t := newTask(false)
 		pool.Submit(body(t))
 		gs := waitQuiescent()
-		if t.runs.Load() != 1 && !cancelledOK(t) {
+		if t.runs.Load() != 1 {
 			cnt, q := cq()
+			if t.runs.Load() == 0 && cnt == 0 && q == 0 {
+				if a, f, _ := obs.counts(); a == f {
+					viol("task-cancelled-while-pool-running", "%s: a task submitted to the running pool was marked done without running (PendingTasksCounter=0, Queue empty, accepted=finished=%d, %s)", what, a, patternOf(gs, before))
+					return false
+				}
+			}
 			viol("accepted-task-not-run-while-running", "%s: a task submitted to the running pool has run %d times at structural quiescence: PendingTasksCounter=%d Queue.Size()=%d, %s", what, t.runs.Load(), cnt, q, patternOf(gs, before))
 			return false
 		}
@@ -197,7 +191,6 @@ func runExtra(cfg gatedCfg) (res gatedResult) {
 			return true
 		}
 		shutdown := func(what string) bool {
-			priorShutdown = true
 			st := do(sh, func() { pool.Shutdown() })
 			step("%s -> %s", what, stName(st))
 			if p := sh.TakePanic(); p != "" {
@@ -277,7 +270,7 @@ func runExtra(cfg gatedCfg) (res gatedResult) {
 		}
 		pk := panicky()
 		waitQuiescent()
-		if pk.runs.Load() != 1 && !cancelledOK(pk) {
+		if pk.runs.Load() != 1 {
 			viol("accepted-task-not-run-while-running", "a task (that panics and recovers internally) submitted after restart has run %d times", pk.runs.Load())
 			return
 		}
@@ -387,7 +380,6 @@ func runExtra(cfg gatedCfg) (res gatedResult) {
 		var held *gtask
 		switch cfg.Variant {
 		case "stopped", "draining":
-			priorShutdown = true
 			pool.Start()
 			waitQuiescent()
 			if cfg.Variant == "draining" {
